@@ -22,7 +22,8 @@
    are exercised on every run by the correspondence check (model vs pgmpy vs extracted Spec.posterior). *)
 From Coq Require Import List Arith Lia PeanoNat Bool QArith Qcanon Permutation.
 From PV Require Import Base.Semiring Base.Ravel Base.FinSum Base.RefFactor Base.VE Base.Graph
-  C01.Model C01.Spec C01.Proofs C01.ProofsElim C01.ProofsMisc.
+  C01.Model C01.Spec C01.Proofs C01.ProofsElim C01.ProofsMisc C01.ProofsIdx C01.ProofsFinal C01.ProofsEvid
+  C01.ProofsQuery C01.ProofsPost C01.ProofsPrune C01.ProofsGreedy C01.ProofsVirt.
 Import ListNotations.
 Local Open Scope nat_scope.
 
@@ -107,6 +108,124 @@ Proof.
   apply (normalise_proportional card Hc f Q (unnorm card b Q ev vev) k a); assumption.
 Qed.
 Print Assumptions C01_normalised_is_posterior_partial.
+
+
+(* ============================ the LITERAL classic path, end to end =============================================
+   [ve_joint] / [ve_per_variable] are the dict-of-sets code of _get_working_factors + _variable_elimination
+   (Model.working_factors, elim_step, final_pairs, normalize) on a BayesianNetwork.  For every valid network,
+   every hard evidence (distinct observed nodes, states in range) with P(e) <> 0, every duplicate-free query
+   disjoint from the evidence, every elimination order that is a permutation of the remaining nodes, and every
+   set-iteration parameter [ord]:  the result is the brute-force posterior. *)
+Theorem C01_query_is_posterior :
+  forall (card : var -> nat) (ord : forall A, list A -> list A) (idbase : nat),
+  (forall A (l : list A), Permutation (ord A l) l) -> (forall v, 0 < card v) ->
+  forall (b : bn) (Q : list var) (ev : list (var * nat)) (order : list var) (a : asg),
+  valid_bn card b -> (forall v, In v (nodes (bn_g b)) -> v < idbase) ->
+  NoDup (map fst ev) -> (forall e, In e (map fst ev) -> In e (nodes (bn_g b))) ->
+  (forall e, In e ev -> snd e < card (fst e)) ->
+  NoDup Q -> (forall q, In q Q -> In q (nodes (bn_g b)) /\ ~ In q (map fst ev)) ->
+  Permutation order (rest b Q (map fst ev)) ->
+  pev card b Q ev [] <> 0%Qc -> valid card a ->
+  feval R card (ve_joint card ord idbase b ev order) a = posterior card b Q ev [] a.
+Proof.
+  intros card ord idbase Hord Hc b Q ev order a Hbn Hid H1 H2 H3 H4 H5 H6 H7 Ha.
+  apply (ve_joint_is_posterior card ord Hord Hc idbase b Q ev order Hbn Hid H1 H2 H3 H4 H5 H6 H7 a Ha).
+Qed.
+Print Assumptions C01_query_is_posterior.
+
+(* joint=False: every entry of the returned dict is the posterior marginal of its variable *)
+Theorem C01_per_variable_is_marginal :
+  forall (card : var -> nat) (ord : forall A, list A -> list A) (idbase : nat),
+  (forall A (l : list A), Permutation (ord A l) l) -> (forall v, 0 < card v) ->
+  forall (b : bn) (Q : list var) (ev : list (var * nat)) (order : list var) (a : asg) (q : var) (f : fac),
+  valid_bn card b -> (forall v, In v (nodes (bn_g b)) -> v < idbase) ->
+  NoDup (map fst ev) -> (forall e, In e (map fst ev) -> In e (nodes (bn_g b))) ->
+  (forall e, In e ev -> snd e < card (fst e)) ->
+  NoDup Q -> (forall q, In q Q -> In q (nodes (bn_g b)) /\ ~ In q (map fst ev)) ->
+  Permutation order (rest b Q (map fst ev)) ->
+  pev card b Q ev [] <> 0%Qc -> valid card a ->
+  In (q, f) (ve_per_variable card ord idbase b Q ev order) ->
+  In q Q /\ feval R card f a = posterior_marginal card b Q ev [] q a.
+Proof.
+  intros card ord idbase Hord Hc b Q ev order a q f Hbn Hid H1 H2 H3 H4 H5 H6 H7 Ha Hin.
+  apply (ve_per_variable_is_marginal card ord Hord Hc idbase b Q ev order Hbn Hid H1 H2 H3 H4 H5 H6 H7 q f a Ha Hin).
+Qed.
+Print Assumptions C01_per_variable_is_marginal.
+
+(* hence the answer does not depend on the elimination order nor on the set-iteration order *)
+Theorem C01_answer_independent_of_order :
+  forall (card : var -> nat) (ord1 ord2 : forall A, list A -> list A) (idbase : nat),
+  (forall A (l : list A), Permutation (ord1 A l) l) -> (forall A (l : list A), Permutation (ord2 A l) l) ->
+  (forall v, 0 < card v) ->
+  forall (b : bn) (Q : list var) (ev : list (var * nat)) (o1 o2 : list var) (a : asg),
+  valid_bn card b -> (forall v, In v (nodes (bn_g b)) -> v < idbase) ->
+  NoDup (map fst ev) -> (forall e, In e (map fst ev) -> In e (nodes (bn_g b))) ->
+  (forall e, In e ev -> snd e < card (fst e)) ->
+  NoDup Q -> (forall q, In q Q -> In q (nodes (bn_g b)) /\ ~ In q (map fst ev)) ->
+  Permutation o1 (rest b Q (map fst ev)) -> Permutation o2 (rest b Q (map fst ev)) ->
+  pev card b Q ev [] <> 0%Qc -> valid card a ->
+  feval R card (ve_joint card ord1 idbase b ev o1) a = feval R card (ve_joint card ord2 idbase b ev o2) a.
+Proof.
+  intros card ord1 ord2 idbase Ho1 Ho2 Hc b Q ev o1 o2 a Hbn Hid H1 H2 H3 H4 H5 H6 H6' H7 Ha.
+  rewrite (C01_query_is_posterior card ord1 idbase Ho1 Hc b Q ev o1 a Hbn Hid H1 H2 H3 H4 H5 H6 H7 Ha).
+  rewrite (C01_query_is_posterior card ord2 idbase Ho2 Hc b Q ev o2 a Hbn Hid H1 H2 H3 H4 H5 H6' H7 Ha).
+  reflexivity.
+Qed.
+Print Assumptions C01_answer_independent_of_order.
+
+
+(* ---- the greedy branch (elimination_order="greedy": evidence slicing + einsum to the query indices) ---------- *)
+Theorem C01_greedy_path :
+  forall (card : var -> nat), (forall v, 0 < card v) ->
+  forall (b : bn) (Q : list var) (ev : list (var * nat)) (a : asg),
+  valid_bn card b -> (forall e, In e ev -> snd e < card (fst e)) ->
+  NoDup Q -> (forall q, In q Q -> In q (nodes (bn_g b)) /\ ~ In q (map fst ev)) ->
+  pev card b Q ev [] <> 0%Qc -> valid card a ->
+  feval R card (greedy_joint card b Q ev) a = posterior card b Q ev [] a /\
+  forall q f, In (q, f) (greedy_per_variable card b Q ev) ->
+    In q Q /\ feval R card f a = posterior_marginal card b Q ev [] q a.
+Proof.
+  intros card Hc b Q ev a Hbn Hr Hn Hq Hpe Ha. split.
+  - apply (greedy_joint_is_posterior card Hc b Q ev Hbn Hn Hpe a Ha).
+  - intros q f Hin. apply (greedy_per_variable_is_marginal card Hc b Q ev Hbn Hn Hpe q f a Ha Hin).
+Qed.
+Print Assumptions C01_greedy_path.
+
+(* ---- barren nodes: any set D of unqueried, unobserved nodes that can be removed leaf-first (each, when
+   removed, occurs in no remaining CPD but its own - e.g. the non-ancestors of Q u E in reverse topological
+   order) can be dropped with its CPDs: the unnormalised answer, hence P(e) and the posterior, is unchanged.
+   (The ancestral step of _prune_bayesian_model keeps anc_of(Q u E); that its complement admits such an
+   enumeration in every DAG is not proved here.) *)
+Theorem C01_prune_barren :
+  forall (card : var -> nat) (b : bn) (Q : list var) (ev : list (var * nat)) (D : list var) (a : asg),
+  valid_bn card b -> NoDup D ->
+  (forall x, In x D -> In x (nodes (bn_g b)) /\ ~ In x Q /\ ~ In x (map fst ev)) ->
+  barren_order b (nodes (bn_g b)) D ->
+  (forall e, In e ev -> snd e < card (fst e)) -> valid card a ->
+  unnorm card b Q ev [] a = unnorm card (drop_nodes b D) Q ev [] a.
+Proof. intros. apply prune_barren_unnorm; assumption. Qed.
+Print Assumptions C01_prune_barren.
+
+(* ---- virtual evidence: the network augmented as _virtual_evidence does (binary child __X of X with CPD rows
+   v, 1 - v) with the children observed at state 0 has, for every query, the unnormalised answer of the original
+   network weighted by the likelihood vectors; hence (with C01_query_is_posterior / C01_greedy_path applied to
+   the augmented network, valid by pgmpy's check_model) query(..., virtual_evidence) is the soft-evidence
+   posterior Spec.posterior b Q ev (likelihoods vev). *)
+Theorem C01_virtual_evidence :
+  forall (card : var -> nat) (b : bn) (Q : list var) (ev : list (var * nat)) (vev : list (var * var * list Qc)) (a : asg),
+  valid_bn card b ->
+  NoDup (map (fun t => snd (fst t)) vev) ->
+  (forall t, In t vev -> In (fst (fst t)) (nodes (bn_g b)) /\ ~ In (snd (fst t)) (nodes (bn_g b)) /\
+                          ~ In (snd (fst t)) (map fst ev) /\ card (snd (fst t)) = 2 /\
+                          length (snd t) = card (fst (fst t))) ->
+  (forall e, In e ev -> snd e < card (fst e)) -> valid card a ->
+  unnorm card (virtual_model b vev) Q (virtual_evidence ev vev) [] a = unnorm card b Q ev (likelihoods vev) a.
+Proof.
+  intros card b Q ev vev a Hbn Hnd Hall Hr Ha.
+  rewrite (virtual_unnorm card Q vev b ev [] a (valid_scoped card b Hbn) Hnd); [rewrite app_nil_r; reflexivity| |exact Hr|exact Ha].
+  intros t Ht. destruct (Hall t Ht) as [A1 [A2 [A3 [A4 A5]]]]. repeat split; try assumption. intros w [].
+Qed.
+Print Assumptions C01_virtual_evidence.
 
 (* every ordering heuristic returns a permutation of the variables it is asked to order *)
 Theorem C01_heuristics_perm :
